@@ -66,27 +66,27 @@ type watch struct {
 }
 
 type world struct {
-	c      *core.Ctx
-	state  bool // StateRoutineContainer
-	rc     *routine.RoutineContainer
-	sc     *routine.StateRoutineContainer[int]
-	bo     *recBackoff
-	retry  bool
-	ncb    int
-	insts  []*inst
-	active int
-	gates  []chan struct{}
-	gateOf map[*inst]chan struct{}
-	watches []*watch
-	nextRid int
+	c         *core.Ctx
+	state     bool // StateRoutineContainer
+	rc        *routine.RoutineContainer
+	sc        *routine.StateRoutineContainer[int]
+	bo        *recBackoff
+	retry     bool
+	ncb       int
+	insts     []*inst
+	active    int
+	gates     []chan struct{}
+	gateOf    map[*inst]chan struct{}
+	watches   []*watch
+	nextRid   int
 	installed map[int]int // rid -> stamp of the return of the call that installed it
 	// model pieces that are exact because one driver owns them
-	ctxTag    int // tag of the container's current context (0 = none), owned by driver 0
-	ctxs      map[int]context.Context
-	cancels   map[int]context.CancelFunc
-	hasFn     bool // routine (or state routine) present, owned by driver 1
-	curState  int
-	cmpNil    bool
+	ctxTag   int // tag of the container's current context (0 = none), owned by driver 0
+	ctxs     map[int]context.Context
+	cancels  map[int]context.CancelFunc
+	hasFn    bool // routine (or state routine) present, owned by driver 1
+	curState int
+	cmpNil   bool
 	// C14 machine
 	single     bool
 	needReset  bool
@@ -137,6 +137,7 @@ func (w *world) instance(rid int, ctx context.Context, st int) (err error) {
 	c := w.c
 	in := &inst{n: len(w.insts) + 1, rid: rid, ctx: ctx, tag: core.Tag(ctx), st: st, entered: c.Tick()}
 	w.insts = append(w.insts, in)
+	c.Pub() // the instance's context is inspected by the drivers' oracles
 	if w.active > 0 {
 		c.Fail("C04.R1.two-instances", "instance %d of the managed function entered while %d earlier instance(s) have not returned", in.n, w.active)
 	}
@@ -244,6 +245,7 @@ func (w *world) onStep() {
 
 // S1 checks (C05), evaluated at the return of a superseding call.
 func (w *world) checkCancelledBefore(inv int, what string, pred func(in *inst) bool) {
+	w.c.Sub()
 	for _, in := range w.insts {
 		if in.entered < inv && in.returned == 0 && pred(in) && in.ctx.Err() == nil {
 			w.c.Fail("C05.S1.superseded-not-cancelled", "%s returned, but instance %d (ctx %d), which it superseded, still has a live context", what, in.n, in.tag)
@@ -384,6 +386,11 @@ func (w *world) maybeGate() {
 
 func (w *world) checkQuiescentConcurrent() {
 	c := w.c
+	// no timer may fire while the quiescent-point oracles run (GetState yields)
+	saved := c.S.TimerEarlyPermille
+	c.S.TimerEarlyPermille = 0
+	defer func() { c.S.TimerEarlyPermille = saved }()
+	c.Sub()
 	var live []*inst
 	for _, in := range w.insts {
 		if in.returned == 0 && in.ctx.Err() == nil {
